@@ -50,6 +50,33 @@ func resultVal(u *Unit, st *State, sig *types.Signature, hint string) Val {
 
 func (f *Frame) execCall(ins ssa.Instruction, c *ssa.CallCommon, st *State) Val {
 	u := f.u
+	// devirtualise: an interface method call on a value whose concrete type is known in this unit
+	if c.IsInvoke() {
+		if rv := f.val(c.Value, st); rv.Conc != nil && rv.ConcVal != nil {
+			if m := u.eng.Prog.LookupMethod(rv.Conc, c.Method.Pkg(), c.Method.Name()); m != nil && m.Synthetic == "" {
+				dc := &ssa.CallCommon{Value: m, Args: append([]ssa.Value{devirtRecv{c.Value, rv.Conc}}, c.Args...)}
+				f.vals[dc.Args[0]] = *rv.ConcVal
+				if _, reg := f.callOrd[ins]; reg {
+					// keep the anchor of the original instruction
+				}
+				return f.execCallCommon(ins, dc, st)
+			}
+		}
+	}
+	return f.execCallCommon(ins, c, st)
+}
+
+// devirtRecv is a placeholder ssa.Value standing for the concrete receiver of a devirtualised call.
+type devirtRecv struct {
+	ssa.Value
+	ty types.Type
+}
+
+func (d devirtRecv) Type() types.Type { return d.ty }
+func (d devirtRecv) Name() string      { return d.Value.Name() + "_conc" }
+
+func (f *Frame) execCallCommon(ins ssa.Instruction, c *ssa.CallCommon, st *State) Val {
+	u := f.u
 	name := calleeName(c)
 	args := f.callArgs(c, st)
 	sig := c.Signature()
@@ -333,28 +360,33 @@ func (f *Frame) applyContract(spec *UnitSpec, name string, c *ssa.CallCommon, si
 			u.addObl(st, "term@"+anchor, "decreases", And(App("<=", SBool, IntLit(0), u.entryMeasure), App("<", SBool, tv.T, u.entryMeasure)), spec.Decr)
 		}
 	}
-	// frame
-	if !spec.ModSet {
-		if !spec.Pure {
-			u.havocAllExcept(st, itemsMatchers(spec.Preserves, spec.Pkg))
-			f.havocClosureArgs(args, st)
-		}
-	} else {
-		for _, m := range spec.Modifies {
-			if strings.HasPrefix(m, "$") {
-				gt, ok := u.eng.GlobalGhosts[m]
-				if !ok {
-					u.errorf("%s: modifies unknown ghost %s", spec.Name, m)
-					continue
-				}
-				srt, _ := env.resolveType(gt)
-				if _, has := st.ghost[m]; !has {
-					pre.ghost[m] = u.ghostInit(m, srt)
-				}
-				st.ghost[m] = u.defs.Fresh("gh_"+m, srt)
+	// frame: ghosts named in modifies are forgotten; the heap is forgotten entirely (no frame clause), except the
+	// preserved classes (preserves), or only in the listed classes (modifies)
+	for _, m := range spec.Modifies {
+		if strings.HasPrefix(m, "$") {
+			gt, ok := u.eng.GlobalGhosts[m]
+			if !ok {
+				u.errorf("%s: modifies unknown ghost %s", spec.Name, m)
+				continue
 			}
+			srt, _ := env.resolveType(gt)
+			if _, has := st.ghost[m]; !has {
+				pre.ghost[m] = u.ghostInit(m, srt)
+			}
+			st.ghost[m] = u.defs.Fresh("gh_"+m, srt)
 		}
+	}
+	switch {
+	case len(spec.Preserves) > 0:
+		u.havocAllExcept(st, itemsMatchers(spec.Preserves, spec.Pkg))
+		f.havocClosureArgs(args, st)
+	case !spec.ModSet && !spec.Pure:
+		u.havocAll(st)
+		f.havocClosureArgs(args, st)
+	default:
 		u.havocOnly(st, itemsMatchers(spec.Modifies, spec.Pkg))
+		// callbacks passed to the callee may run: forget the captured variables they assign
+		f.havocClosureArgs(args, st)
 	}
 	// ghost effects declared by the contract: "ensures" may mention ghost variables of the caller by name ($held etc.)
 	res := resultVal(u, st, sig, "r_"+sanitize(anchor))
@@ -556,6 +588,21 @@ func (f *Frame) execBuiltin(b *ssa.Builtin, c *ssa.CallCommon, args []Val, st *S
 			u.heapSet(st, class, u.defs.Define("H_"+class, Store(arr, App("s_arr", SInt, args[0].T), na)))
 			n := u.defs.Fresh("ncopy", SInt)
 			u.assume(st, And(App(">=", SBool, n, IntLit(0)), App("<=", SBool, n, App("s_len", SInt, args[0].T))))
+			// byte buffers: the decoded-field view (Enc.*) of the destination follows the source when both
+			// slices start at offset 0 of their arrays and the destination is at least as long
+			if sortOf(st0.Elem()) == SInt && args[1].T.Sort == SSlice {
+				whole := And(Eq(App("s_off", SInt, args[0].T), IntLit(0)), Eq(App("s_off", SInt, args[1].T), IntLit(0)), App(">=", SBool, App("s_len", SInt, args[0].T), App("s_len", SInt, args[1].T)))
+				for _, cls := range sortedKeys(u.classSort) {
+					if !strings.HasPrefix(cls, "Enc.") {
+						continue
+					}
+					srt := u.classSort[cls]
+					ea := u.heapGet(st, cls, srt)
+					fresh := u.defs.Fresh("copied_"+cls, arrayValSort(srt))
+					inner := Ite(whole, Select(ea, App("s_arr", SInt, args[1].T)), fresh)
+					u.heapSet(st, cls, u.defs.Define("H_"+cls, Store(ea, App("s_arr", SInt, args[0].T), inner)))
+				}
+			}
 			return Val{T: n}
 		}
 		return Val{T: u.freshOf(st, "copy", types.Typ[types.Int])}
